@@ -556,7 +556,9 @@ class Matcher:
                 gd = {canon(k): v for k, v in got["$d"]}
                 named = {p2["name"] for p2 in meta.get("sig", []) if p2["kind"] in ("pk", "ko")}
                 for k, v in kw.items():
-                    if k in named:
+                    if k in named or k in BUILTINS:
+                        # (a user keyword with a reserved name never reaches callbacks: the engine's
+                        # value of that name is what the loop below demands)
                         continue
                     if canon(k) not in gd or canon(gd[canon(k)]) != canon(_encv(v)):
                         self.add("bound.user", n, cb=r["c"], param=nm, key=k, expected=v,
